@@ -272,6 +272,21 @@ pub struct BatchCfg {
     pub scratch: std::path::PathBuf,
 }
 
+/// Every child process that executes crate code is started with address-space layout
+/// randomisation switched off (`setarch <arch> -R`, when util-linux's setarch is there), so that a
+/// tree whose behaviour depends on the *addresses* of objects (a cache keyed by `&self as usize`,
+/// say) still behaves the same in the lane that found a failure and in the process that replays it.
+pub fn child_command(exe: &std::path::Path) -> std::process::Command {
+    let setarch = std::path::Path::new("/usr/bin/setarch");
+    if setarch.exists() && std::env::var_os("CKC_SIM_NO_SETARCH").is_none() {
+        let mut c = std::process::Command::new(setarch);
+        c.arg(std::env::consts::ARCH).arg("-R").arg(exe);
+        c
+    } else {
+        std::process::Command::new(exe)
+    }
+}
+
 /// The seeded runs are executed in a fixed number of *lanes*. A lane is a fresh process that
 /// executes its chunks (chunk c belongs to lane c mod LANES) one after the other on one thread.
 /// Nothing is shared between lanes, so even a tree that keeps process-wide state (a static cache,
@@ -510,7 +525,7 @@ pub fn run_batch<W: World>(cfg: &BatchCfg) -> Result<BatchResult, String> {
         if running.len() >= cfg.workers.max(1) {
             wait_one(&mut running, &mut failed);
         }
-        let mut cmd = std::process::Command::new(&exe);
+        let mut cmd = child_command(&exe);
         cmd.arg("lane").arg("--prop").arg(&cfg.prop).arg("--seed").arg(cfg.base_seed.to_string()).arg("--runs").arg(cfg.runs.to_string()).arg("--lane").arg(lane.to_string()).arg("--lanes").arg(lanes.to_string()).arg("--values-runs").arg(cfg.values_runs.to_string()).arg("--depth").arg(depth().to_string()).arg("--out").arg(dir.join(format!("lane-{}.bin", lane)));
         if cfg.keep_run_digests {
             cmd.arg("--keep-run-digests");
